@@ -107,7 +107,7 @@ fn run_source(filename: &str, src: &str, arena: &Arena) -> ExitCode {
     // Resolver uses a separate scratch arena that is freed after resolution,
     // before the runtime begins. This groups the resolver's working memory
     // (scope tables, diagnostics) into a shorter lifetime than the AST.
-    {
+    let (facts, optimization_plan) = {
         let res_arena = scratch_arena(Some(arena));
         let mut resolver = Resolver::with_facts_arena(&res_arena, arena);
         resolver.resolve(root);
@@ -119,21 +119,21 @@ fn run_source(filename: &str, src: &str, arena: &Arena) -> ExitCode {
             resolver.errors.report(src, filename);
         }
 
-        let (facts, optimization_plan) = resolver.into_artifacts();
+        resolver.into_artifacts()
+    };
 
-        // After resolver scope drops, scratch[1] is free for use as frame arena.
-        let frame = scratch_arena(Some(arena));
-        let mut runtime = Runtime::new(arena, Some(&frame));
-        let err = runtime.run_with_analysis(root, &facts, optimization_plan.as_ref());
-        if err.has_errors() {
-            err.report(src, filename);
-            return ExitCode::FAILURE;
-        }
-        if !err.diagnostics.is_empty() {
-            err.report(src, filename);
-        }
-        ExitCode::SUCCESS
+    // The resolver scope has dropped: scratch[1] is free for use as frame arena.
+    let frame = scratch_arena(Some(arena));
+    let mut runtime = Runtime::new(arena, Some(&frame));
+    let err = runtime.run_with_analysis(root, &facts, optimization_plan.as_ref());
+    if err.has_errors() {
+        err.report(src, filename);
+        return ExitCode::FAILURE;
     }
+    if !err.diagnostics.is_empty() {
+        err.report(src, filename);
+    }
+    ExitCode::SUCCESS
 }
 
 fn run_file(path: &str, arena: &Arena) -> ExitCode {
